@@ -3,7 +3,7 @@
 # sure it builds, and run the property's quick check against it (no violation search).  Expected: exit 0 everywhere; what
 # breaks is a brittle tie (false alarm on a behaviour-preserving change) and is listed with the broken obligation.
 V=${VERIF_HOME:-/verif}
-D=$1; shift
+D=$(realpath $1); shift
 IDS=${@:-$(ls $D)}
 export GOFLAGS=-mod=mod GOPROXY=off GOSUMDB=off GOTOOLCHAIN=local
 for p in $IDS; do
